@@ -101,7 +101,7 @@ def possibleE (rest : List Token) : Except Err (Option (String × Nat)) :=
   | [] => .error .value
   | t :: rest' =>
     if t.text == "" then .ok none
-    else if startsWithE t.text && t.text.length > 1 && secondIsDigit t.text then .ok (some (t.text, 1))
+    else if startsWithEe t.text && t.text.length > 1 && secondIsDigit t.text then .ok (some (t.text, 1))      -- (F71 repair: e3 or E3)
     else if t.text == "e" || t.text == "E" then      -- exactly the token `e+3` starts with (F39 repair)
       match rest' with
       | [] => .error .value
@@ -144,12 +144,25 @@ def decimalsOf (nominal : String) : Nat :=
 
 def rjustZero (l : List Char) (n : Nat) : List Char := List.replicate (n - l.length) '0' ++ l
 
-def parenStd (nominal std : String) : String :=
+def parenMant (nominal std : String) : String :=
   if std.toList.contains '.' then std else
   let d := decimalsOf nominal
   let digits := rjustZero std.toList (d + 1)
   if d = 0 then String.ofList digits
   else String.ofList (digits.take (digits.length - d) ++ ['.'] ++ digits.drop (digits.length - d))
+
+/-- the exponent part of a NUMBER token (`partition("e")[2]` of the lower-cased text) -/
+def exponentOf (nominal : String) : String :=
+  match (lower nominal).toList.dropWhile (· != 'e') with
+  | [] => ""
+  | _ :: ex => String.ofList ex
+
+/-- F70 repair: the last digits of a value written with an exponent are those of its mantissa:
+    1.50e3(2) is 1.50e3 plus-minus 0.02e3 -/
+def parenStd (nominal std : String) : String :=
+  if std.toList.contains '.' then std
+  else if exponentOf nominal == "" then parenMant nominal std
+  else parenMant nominal std ++ "e" ++ exponentOf nominal
 
 def pmOp : Token := ⟨.op, "+/-"⟩
 
